@@ -248,7 +248,18 @@ func cmdCheck(args []string) int {
 			assumedRepo[a+" (used in unit "+r.Unit+")"] = true
 		}
 		for _, x := range r.Excluded {
-			notCovered = append(notCovered, x+" (unit "+r.Unit+": excluded from the claimed set, residual imprecision of the sweep)")
+			// a function excluded from a sweep but verified by another unit of this check is covered
+			covered := false
+			for _, r2 := range reports {
+				for _, f2 := range r2.Functions {
+					if f2.Name == x {
+						covered = true
+					}
+				}
+			}
+			if !covered {
+				notCovered = append(notCovered, x+" (unit "+r.Unit+": excluded from the claimed set, residual imprecision of the sweep)")
+			}
 		}
 		if !r.FrameCheck {
 			trusted["unit "+r.Unit+": modifies clauses of callees are trusted (frame obligations not generated for this unit)"] = true
